@@ -1245,3 +1245,207 @@ Proof.
     - apply Z.ltb_ge in Z1. symmetry. apply (Z.div_unique (nowms + n) 1000 (a + q + 1) (r + s - 1000)); lia. }
   rewrite E1, E2. destruct (Z.eqb_spec s 0), (Z.ltb_spec (r + s) 1000); lia.
 Qed.
+
+(* ---- MSET: every key written ends up a string without deadline ---- *)
+Fixpoint pair_keys (l : list bytes) : list bytes :=
+  match l with k :: _ :: r => k :: pair_keys r | _ => [] end.
+
+Lemma mset_pairs_plain_n n : forall (l : list bytes) d d', (List.length l <= n)%nat ->
+  mset_pairs d l = Some d' ->
+  forall k, (In k (pair_keys l) \/ (db_ttl d k = None /\ exists v, db_get d k = Some (VStr v))) ->
+            db_ttl d' k = None /\ exists v, db_get d' k = Some (VStr v).
+Proof.
+  induction n as [|n IH]; intros l d d' L E k H; destruct l as [|k1 [|v1 r]]; cbn in *;
+    try discriminate; try lia.
+  - injection E as <-. destruct H as [[]|H]; exact H.
+  - injection E as <-. destruct H as [[]|H]; exact H.
+  - eapply (IH r); [lia|exact E|].
+    destruct (bytes_eqb_spec k k1) as [->|N].
+    + right. rewrite db_ttl_set, db_ttl_del_ttl, db_get_set, !bytes_eqb_refl. eauto.
+    + destruct H as [[H|H]|[H1 [v H2]]]; [congruence|left; exact H|right].
+      rewrite db_ttl_set, db_ttl_del_ttl, db_get_set, db_get_del_ttl.
+      destruct (bytes_eqb_spec k k1); [contradiction|]. eauto.
+Qed.
+
+Theorem exec_mset_plain d now nowms c kvs hint k : db_wf d -> lower c = B "mset" ->
+  fst (exec d now nowms (c :: kvs) hint) = rOK ->
+  In k (pair_keys kvs) ->
+  exists v, raw_view (snd (exec d now nowms (c :: kvs) hint)) k = Some (VStr v, None).
+Proof.
+  intros W E. exec_named E. unfold exec_mset.
+  destruct kvs as [|k1 [|v1 r]]; try discriminate.
+  destruct (mset_pairs (purge d now) (k1 :: v1 :: r)) as [d'|] eqn:M; [|discriminate].
+  intros _ I. cbn [snd].
+  destruct (mset_pairs_plain_n _ _ _ _ (le_n _) M k (or_introl I)) as [T [v G]].
+  exists v. unfold raw_view. rewrite G, T. reflexivity.
+Qed.
+
+(* ---- SETEX ---- *)
+Theorem exec_setex_deadline d now nowms c k secs v n hint : db_wf d -> lower c = B "setex" ->
+  atoi64 secs = Some n -> 0 < n -> in_int64 (now + n) = true ->
+  let res := exec d now nowms [c; k; secs; v] hint in
+  fst res = rOK /\ raw_view (snd res) k = Some (VStr v, Some (now + n)) /\
+  forall k0, k0 <> k -> raw_view (snd res) k0 = view d now k0.
+Proof.
+  intros W E A P I. cbv zeta. exec_named E. unfold exec_setex. rewrite A, I.
+  replace (n <=? 0) with false by (symmetry; apply Z.leb_gt; exact P). cbn [orb negb fst snd].
+  split; [reflexivity|]. split.
+  - unfold raw_view. rewrite db_get_set_ttl, db_ttl_set_ttl, !db_get_set, !bytes_eqb_refl. reflexivity.
+  - intros k0 N. rewrite <- (raw_view_purge d now k0 W). unfold raw_view.
+    rewrite db_get_set_ttl, db_ttl_set_ttl, db_get_set, db_ttl_set.
+    apply bytes_eqb_neq in N. rewrite N, andb_false_r. reflexivity.
+Qed.
+
+(* ---- EXPIRE ---- *)
+Inductive expopt := ENone | ENX | EXX | EGT | ELT.
+Definition parse_expopt (rest : list bytes) : option expopt :=
+  match rest with
+  | [] => Some ENone
+  | [o] => let o := lower o in
+           if is o (B "nx") then Some ENX else if is o (B "xx") then Some EXX
+           else if is o (B "gt") then Some EGT else if is o (B "lt") then Some ELT else None
+  | _ => None
+  end.
+
+(* the stated condition of each option; [cur] = the deadline the key has now (None = none, which
+   counts as infinitely far away for GT and LT), [t] = the requested deadline *)
+Definition expire_applies (e : expopt) (cur : option Z) (t : Z) : bool :=
+  match e, cur with
+  | ENone, _ => true
+  | ENX, None => true   | ENX, Some _ => false
+  | EXX, None => false  | EXX, Some _ => true
+  | EGT, None => false  | EGT, Some c => t >? c
+  | ELT, None => true   | ELT, Some c => t <? c
+  end.
+
+Lemma lower_lower_lit o lit : lower o = lit -> is (lower o) lit = true.
+Proof. intros ->. apply bytes_eqb_refl. Qed.
+
+Theorem exec_expire_spec d now nowms c k v n rest e hint : db_wf d -> lower c = B "expire" ->
+  atoi64 v = Some n -> in_int64 (now + n) = true -> parse_expopt rest = Some e ->
+  let res := exec d now nowms (c :: k :: v :: rest) hint in
+  match view d now k with
+  | Some (val, cur) =>
+    if expire_applies e cur (now + n)
+    then fst res = RInt 1 /\ raw_view (snd res) k = Some (val, Some (now + n)) /\
+         forall k0, k0 <> k -> raw_view (snd res) k0 = view d now k0
+    else res = (RInt 0, purge d now)
+  | None => res = (RInt 0, purge d now)
+  end.
+Proof.
+  intros W E A I P. cbv zeta. exec_named E. unfold exec_expire. cbv beta zeta.
+  rewrite <- (raw_view_purge d now k W). set (p := purge d now).
+  assert (S : forall val, db_get p k = Some val ->
+     raw_view (db_set_ttl p k (now + n)) k = Some (val, Some (now + n)) /\
+     forall k0, k0 <> k -> raw_view (db_set_ttl p k (now + n)) k0 = view d now k0).
+  { intros val G. split.
+    - unfold raw_view. rewrite db_get_set_ttl, db_ttl_set_ttl, G, bytes_eqb_refl. reflexivity.
+    - intros k0 N. rewrite <- (raw_view_purge d now k0 W). unfold raw_view.
+      rewrite db_get_set_ttl, db_ttl_set_ttl. apply bytes_eqb_neq in N. rewrite N, andb_false_r.
+      reflexivity. }
+  unfold parse_expopt in P.
+  destruct rest as [|o [|x r]]; [| |discriminate].
+  - injection P as <-. rewrite A, I. cbn [negb is bytes_eqb].
+    unfold raw_view. destruct (db_get p k) as [val|] eqn:G; cbn [isSome expire_applies fst snd].
+    + destruct (S val eq_refl) as [S1 S2]. split; [reflexivity|]. split; assumption.
+    + reflexivity.
+  - rewrite A, I. cbn [negb]. cbv zeta in P.
+    assert (Hn : is (lower o) [] = false).
+    { destruct (lower o) eqn:L; [|reflexivity]. vm_compute in P. discriminate. }
+    rewrite Hn.
+    unfold raw_view. destruct (db_get p k) as [val|] eqn:G; cbn [isSome fst snd].
+    + destruct (S val eq_refl) as [S1 S2].
+      destruct (is (lower o) (B "nx")); [injection P as <-|
+      destruct (is (lower o) (B "xx")); [injection P as <-|
+      destruct (is (lower o) (B "gt")); [injection P as <-|
+      destruct (is (lower o) (B "lt")); [injection P as <-|discriminate]]]];
+      destruct (db_ttl p k) as [cur|]; cbn [expire_applies];
+      try destruct (now + n >? cur); try destruct (now + n <? cur);
+      try reflexivity; (split; [reflexivity|]; split; assumption).
+    + destruct (is (lower o) (B "nx")); [destruct (db_ttl p k); reflexivity|].
+      destruct (is (lower o) (B "xx")); [destruct (db_ttl p k); reflexivity|].
+      destruct (is (lower o) (B "gt")); [destruct (db_ttl p k) as [cur|]; [destruct (now + n >? cur)|]; reflexivity|].
+      destruct (is (lower o) (B "lt")); [destruct (db_ttl p k) as [cur|]; [destruct (now + n <? cur)|]; reflexivity|].
+      discriminate.
+Qed.
+
+(* ---- PERSIST ---- *)
+Theorem exec_persist_spec d now nowms c k hint : db_wf d -> lower c = B "persist" ->
+  let res := exec d now nowms [c; k] hint in
+  match view d now k with
+  | Some (val, Some t) =>
+    fst res = RInt 1 /\ raw_view (snd res) k = Some (val, None) /\
+    forall k0, k0 <> k -> raw_view (snd res) k0 = view d now k0
+  | _ => res = (RInt 0, purge d now)
+  end.
+Proof.
+  intros W E. cbv zeta. exec_named E. unfold exec_persist.
+  rewrite <- (raw_view_purge d now k W). set (p := purge d now). unfold raw_view.
+  destruct (db_get p k) as [val|] eqn:G; [|reflexivity].
+  destruct (db_ttl p k) as [t|] eqn:T; [|reflexivity].
+  cbn [fst snd]. split; [reflexivity|]. split.
+  - rewrite db_get_del_ttl, db_ttl_del_ttl, G, bytes_eqb_refl. reflexivity.
+  - intros k0 N. rewrite <- (raw_view_purge d now k0 W). fold p. unfold raw_view.
+    rewrite db_get_del_ttl, db_ttl_del_ttl. apply bytes_eqb_neq in N. rewrite N. reflexivity.
+Qed.
+
+(* ---- DEL: key and deadline are gone ---- *)
+Lemma del_keys_gone l : forall d n k, (In k l \/ (db_get d k = None /\ db_ttl d k = None)) ->
+  db_get (snd (del_keys d l n)) k = None /\ db_ttl (snd (del_keys d l n)) k = None.
+Proof.
+  induction l as [|k1 r IH]; intros d n k H; cbn.
+  - destruct H as [[]|H]; exact H.
+  - assert (H' : In k r \/ db_get (db_del d k1) k = None /\ db_ttl (db_del d k1) k = None).
+    { rewrite db_get_del, db_ttl_del. destruct (bytes_eqb_spec k k1) as [->|N]; [right; split; reflexivity|].
+      destruct H as [[H|H]|H]; [congruence|left; exact H|right; exact H]. }
+    destruct (db_get d k1); apply IH; exact H'.
+Qed.
+
+Theorem exec_del_gone d now nowms c keys hint k : lower c = B "del" -> In k keys ->
+  raw_view (snd (exec d now nowms (c :: keys) hint)) k = None /\
+  db_ttl (snd (exec d now nowms (c :: keys) hint)) k = None.
+Proof.
+  intros E I. exec_named E. unfold exec_del. destruct keys as [|k1 r]; [contradiction|].
+  pose proof (del_keys_gone (k1 :: r) (purge d now) 0 k (or_introl I)) as [G T].
+  destruct (del_keys (purge d now) (k1 :: r) 0). cbn [snd] in *. unfold raw_view. rewrite G, T.
+  split; reflexivity.
+Qed.
+
+(* ---- RENAME carries the deadline ---- *)
+Theorem exec_rename_carries d now nowms c old new hint : db_wf d -> lower c = B "rename" ->
+  let res := exec d now nowms [c; old; new] hint in
+  match view d now old with
+  | Some (val, t) =>
+    fst res = rOK /\ raw_view (snd res) new = Some (val, t) /\
+    (old <> new -> raw_view (snd res) old = None) /\
+    forall k0, k0 <> old -> k0 <> new -> raw_view (snd res) k0 = view d now k0
+  | None => snd res = purge d now
+  end.
+Proof.
+  intros W E. cbv zeta. exec_named E. unfold exec_rename.
+  rewrite <- (raw_view_purge d now old W). set (p := purge d now). unfold raw_view at 1.
+  destruct (db_get p old) as [val|] eqn:G; [|reflexivity].
+  cbn [fst snd]. split; [destruct (db_ttl p old); reflexivity|].
+  set (d2 := db_set (db_del (db_del p old) new) new val).
+  assert (G2 : db_get d2 new = Some val) by (unfold d2; rewrite db_get_set, bytes_eqb_refl; reflexivity).
+  assert (T2 : db_ttl d2 new = None)
+    by (unfold d2; rewrite db_ttl_set, db_ttl_del, bytes_eqb_refl; reflexivity).
+  split; [|split].
+  - unfold raw_view. destruct (db_ttl p old) as [t|].
+    + rewrite db_get_set_ttl, db_ttl_set_ttl, G2, bytes_eqb_refl. reflexivity.
+    + rewrite G2, T2. reflexivity.
+  - intros N. apply bytes_eqb_neq in N.
+    assert (Gd : db_get d2 old = None).
+    { unfold d2. rewrite db_get_set, N, db_get_del. destruct (bytes_eqb old new); [reflexivity|].
+      rewrite db_get_del, bytes_eqb_refl. reflexivity. }
+    unfold raw_view. destruct (db_ttl p old); [rewrite db_get_set_ttl|]; rewrite Gd; reflexivity.
+  - intros k0 N1 N2. rewrite <- (raw_view_purge d now k0 W). fold p.
+    apply bytes_eqb_neq in N1. apply bytes_eqb_neq in N2.
+    assert (Gk : db_get d2 k0 = db_get p k0)
+      by (unfold d2; rewrite db_get_set, N2, !db_get_del, N2, N1; reflexivity).
+    assert (Tk : db_ttl d2 k0 = db_ttl p k0)
+      by (unfold d2; rewrite db_ttl_set, !db_ttl_del, N2, N1; reflexivity).
+    unfold raw_view. destruct (db_ttl p old).
+    + rewrite db_get_set_ttl, db_ttl_set_ttl, N2, andb_false_r, Gk, Tk. reflexivity.
+    + rewrite Gk, Tk. reflexivity.
+Qed.
